@@ -82,6 +82,8 @@ PROPS = {
         "diffs": [
             {"cmd": "bt", "scenario": "c16", "quick": 100, "thorough": 2500},
             {"cmd": "bt", "scenario": "c16w", "quick": 25, "thorough": 400},
+            # the background loop's pass (non-forced) and the quiescence it waits for
+            {"cmd": "bt", "scenario": "c16q", "quick": 80, "thorough": 2000},
         ],
         "facts": [],
         "trusted": BT_TRUST + ["the 15-60 s timer loop (gcloop) is not modelled; a pass is forced through the verif hook with the injected clock"],
